@@ -30,6 +30,9 @@ type Step struct {
 	// Hold: the transaction is not ended after this statement; the next step runs in the same transaction (so that it
 	// meets rows the transaction itself deleted, updated or inserted). Pins are compared after every statement all the same.
 	Hold bool `json:"hold,omitempty"`
+	// Reopen (file-backed cases, no transaction open): the database is shut down cleanly ("clean") or stopped without any flush
+	// ("crash") and reopened before the step: the first statements after a start work with freshly initialised table heaps
+	Reopen string `json:"reopen,omitempty"`
 }
 
 type Case struct {
@@ -37,6 +40,7 @@ type Case struct {
 	Rows  [][]dbh.Row    `json:"rows"`
 	KB    int            `json:"kb"`
 	Steps []Step         `json:"steps"`
+	File  bool           `json:"file,omitempty"`  // file-backed storage (restarts exist only there)
 	Stats []string       `json:"stats,omitempty"` // per table: "" (no statistics) | "low" (computed after the first 2 rows) | "fresh" (after the load): steers the join algorithm
 }
 
@@ -80,8 +84,15 @@ func runCase(c *Case) (*vf.Failure, *stats) {
 
 func run(c *Case, st *stats) *vf.Failure {
 	dbh.NoBackground(true)
-	db := dbh.Open("c14", c.KB, false)
-	defer db.Stop()
+	var db *dbh.DB
+	if c.File {
+		dir := dbh.TempDir("c14")
+		db = dbh.Open(dir+"/db", c.KB, true)
+		defer func() { db.Stop(); dbh.RemoveFiles(db.Name) }()
+	} else {
+		db = dbh.Open("c14", c.KB, false)
+		defer func() { db.Stop() }()
+	}
 	for i := range c.Defs {
 		def := &c.Defs[i]
 		if err := db.CreateTable(def); err != nil {
@@ -140,6 +151,15 @@ func run(c *Case, st *stats) *vf.Failure {
 		reps := sp.Repeat
 		if reps < 1 {
 			reps = 1
+		}
+		if c.File && sp.Reopen != "" && (held == nil || held.Done) {
+			if sp.Reopen == "clean" {
+				db.Shutdown()
+			} else {
+				db.Stop()
+			}
+			db = db.Reopen()
+			st.classes["statement-after-"+sp.Reopen+"-restart"] = true
 		}
 		for rep := 0; rep < reps; rep++ {
 			var parked *dbh.Txn
@@ -286,6 +306,7 @@ func genCase(t *rapid.T) *Case {
 		c.Rows = append(c.Rows, rows)
 		c.Stats = append(c.Stats, rapid.SampledFrom([]string{"", "low", "fresh", "fresh"}).Draw(t, "stats"))
 	}
+	c.File = rapid.IntRange(0, 3).Draw(t, "file") == 0
 	joinsOff := sess != nil && sess.ExclusionOn("hash-join-pin-leak")
 	ns := rapid.IntRange(1, 10).Draw(t, "nsteps")
 	for i := 0; i < ns; i++ {
@@ -335,6 +356,9 @@ func genCase(t *rapid.T) *Case {
 			sp.Conflict = true
 			sp.Shared = rapid.Bool().Draw(t, "cshared")
 		}
+		if c.File && rapid.IntRange(0, 3).Draw(t, "reopen") == 0 {
+			sp.Reopen = rapid.SampledFrom([]string{"clean", "clean", "crash"}).Draw(t, "reopenkind")
+		}
 		if sp.S != nil && !sp.Conflict && (sp.S.Kind == "delete" || sp.S.Kind == "update" || sp.S.Kind == "insert") && sp.Repeat <= 1 && rapid.IntRange(0, 2).Draw(t, "hold") == 0 {
 			// the same transaction goes on reading the table it has just changed (own deletes / updates / inserts)
 			sp.Hold = true
@@ -352,12 +376,12 @@ func genCase(t *rapid.T) *Case {
 	return c
 }
 
-const rule = "Case = (two or three tables with skip-list / no indexes, 0-250 rows each, pool from the minimum (3 frames per skip-list index + 8) to +60 frames; 1-10 steps: SELECT (sequential / index range scans, selection, projection), INSERT (also 30x repeated with rows that allocate new heap pages), UPDATE (in place and relocating), DELETE, join queries (hash / index / nested loop join as the optimizer chooses under the tables' statistics states none / computed after 2 rows / fresh, 5x repeated), statistics updates, statements that fail (unknown column/table, type error), UPDATE / DELETE statements aborted by a lock conflict with a parked transaction that wrote the table (the scan is refused) or only read it (the scan succeeds, the lock upgrade is refused); each ended by commit or abort, or followed inside the same transaction by SELECTs of the table it has just changed). Oracle: with no other transaction active, every page with a positive pin count in BufferPoolManager.GetPages() after the statement and its commit/abort already had a positive pin count before it (pin-count growth on pages that were pinned before is recorded as a class, not a violation). Non-trivial = a statement that was planned and executed (plan shape recorded as class)."
+const rule = "Case = (two or three tables with skip-list / no indexes, 0-250 rows each, pool from the minimum (3 frames per skip-list index + 8) to +60 frames; 1-10 steps: SELECT (sequential / index range scans, selection, projection), INSERT (also 30x repeated with rows that allocate new heap pages), UPDATE (in place and relocating), DELETE, join queries (hash / index / nested loop join as the optimizer chooses under the tables' statistics states none / computed after 2 rows / fresh, 5x repeated), statistics updates, statements that fail (unknown column/table, type error), UPDATE / DELETE statements aborted by a lock conflict with a parked transaction that wrote the table (the scan is refused) or only read it (the scan succeeds, the lock upgrade is refused); each ended by commit or abort, or followed inside the same transaction by SELECTs of the table it has just changed). A quarter of the cases are file-backed and restart the database (clean shutdown, or stop without flush + recovery) before some steps, so statements also run as the first ones on freshly initialised table heaps. Oracle: with no other transaction active, every page with a positive pin count in BufferPoolManager.GetPages() after the statement and its commit/abort already had a positive pin count before it (pin-count growth on pages that were pinned before is recorded as a class, not a violation). Non-trivial = a statement that was planned and executed (plan shape recorded as class)."
 
 var assumptions = []string{
 	"CREATE TABLE is outside the statement list (each skip-list index keeps 3 pages pinned for its lifetime by design)",
 	"B-tree / hash indexed tables are excluded (not supported on the front end; the B-tree container keeps its own bounded cache pinned)",
-	"single goroutine, background threads disabled (hook H2), in-memory storage",
+	"single goroutine, background threads disabled (hook H2), in-memory storage (file-backed in the cases with restarts)",
 }
 
 func TestSearch(t *testing.T) {
